@@ -94,11 +94,14 @@ func thmRoundTrip(b *BED) {
 	// the block lists split at their commas (induction over the elements: ghost loops)
 	if b.N > 10 {
 		//@ assert len(splitF(line, 9, 10)) == lw(b.BlockSizes, len(b.BlockSizes))
+		//@ assert forall j int :: 0 <= j && j < len(splitF(line, 9, 10)) ==> splitF(line, 9, 10)[j] == buf.out[e9 + 1 + j]
 		for k := 0; k < len(b.BlockSizes); k++ {
 			//@ assert lw(b.BlockSizes, k + 1) == lwe(b.BlockSizes, k) && lwe(b.BlockSizes, k) <= len(splitF(line, 9, 10))
+			//@ assert forall x int :: e9 + 1 + lws(b.BlockSizes, k) <= x && x < e9 + 1 + lwe(b.BlockSizes, k) ==> buf.out[x] == itoa(b.BlockSizes[k])[x - (e9 + 1 + lws(b.BlockSizes, k))]
 			//@ assert forall j int :: lws(b.BlockSizes, k) <= j && j < lwe(b.BlockSizes, k) ==> splitF(line, 9, 10)[j] == itoa(b.BlockSizes[k])[j - lws(b.BlockSizes, k)]
 			//@ assert k + 1 < len(b.BlockSizes) ==> buf.out[e9 + 1 + lw(b.BlockSizes, k + 1)] == ','
 			//@ assert k + 1 < len(b.BlockSizes) ==> lw(b.BlockSizes, k + 1) < len(splitF(line, 9, 10)) && splitF(line, 9, 10)[lw(b.BlockSizes, k + 1)] == ','
+			//@ assert k + 1 == len(b.BlockSizes) ==> lwe(b.BlockSizes, k) == len(splitF(line, 9, 10))
 			//@ assert lwe(b.BlockSizes, k) == len(splitF(line, 9, 10)) || splitF(line, 9, 10)[lwe(b.BlockSizes, k)] == ','
 			//@ assert splitE(splitF(line, 9, 10), ',', k) == lwe(b.BlockSizes, k)
 			//@ assert strEq(splitF(splitF(line, 9, 10), ',', k), itoa(b.BlockSizes[k]))
@@ -106,11 +109,14 @@ func thmRoundTrip(b *BED) {
 	}
 	if b.N > 11 {
 		//@ assert len(splitF(line, 9, 11)) == lw(b.BlockStarts, len(b.BlockStarts))
+		//@ assert forall j int :: 0 <= j && j < len(splitF(line, 9, 11)) ==> splitF(line, 9, 11)[j] == buf.out[e9 + 1 + lw(b.BlockSizes, len(b.BlockSizes)) + 1 + j]
 		for k := 0; k < len(b.BlockStarts); k++ {
 			//@ assert lw(b.BlockStarts, k + 1) == lwe(b.BlockStarts, k) && lwe(b.BlockStarts, k) <= len(splitF(line, 9, 11))
+			//@ assert forall x int :: e9 + 1 + lw(b.BlockSizes, len(b.BlockSizes)) + 1 + lws(b.BlockStarts, k) <= x && x < e9 + 1 + lw(b.BlockSizes, len(b.BlockSizes)) + 1 + lwe(b.BlockStarts, k) ==> buf.out[x] == itoa(b.BlockStarts[k])[x - (e9 + 1 + lw(b.BlockSizes, len(b.BlockSizes)) + 1 + lws(b.BlockStarts, k))]
 			//@ assert forall j int :: lws(b.BlockStarts, k) <= j && j < lwe(b.BlockStarts, k) ==> splitF(line, 9, 11)[j] == itoa(b.BlockStarts[k])[j - lws(b.BlockStarts, k)]
 			//@ assert k + 1 < len(b.BlockStarts) ==> buf.out[e9 + 1 + lw(b.BlockSizes, len(b.BlockSizes)) + 1 + lw(b.BlockStarts, k + 1)] == ','
 			//@ assert k + 1 < len(b.BlockStarts) ==> lw(b.BlockStarts, k + 1) < len(splitF(line, 9, 11)) && splitF(line, 9, 11)[lw(b.BlockStarts, k + 1)] == ','
+			//@ assert k + 1 == len(b.BlockStarts) ==> lwe(b.BlockStarts, k) == len(splitF(line, 9, 11))
 			//@ assert lwe(b.BlockStarts, k) == len(splitF(line, 9, 11)) || splitF(line, 9, 11)[lwe(b.BlockStarts, k)] == ','
 			//@ assert splitE(splitF(line, 9, 11), ',', k) == lwe(b.BlockStarts, k)
 			//@ assert strEq(splitF(splitF(line, 9, 11), ',', k), itoa(b.BlockStarts[k]))
